@@ -86,6 +86,62 @@ def replay_chunk(args):
     return t
 
 
+def oleq_cases(args):
+    """OLEQ against its as-built model (spec/Oleq.tla): same seed => same start vector => the code's output is the model's"""
+    recs, wrecs = args
+    from .. import oleq_model as OM
+    from ahrs.filters import OLEQ
+    t = Tally()
+    for r in wrecs:
+        t.calls += 1
+        got = np.asarray(OLEQ().WW(np.array(r["b"], dtype=float), np.array(r["r"], dtype=float)), dtype=float)
+        if not np.array_equal(got, np.array(r["W"], dtype=float)):
+            t.fail("C04|OLEQ.WW|differs-from-LeftMat(r)^T.RightMat(b)", {"b": r["b"], "r": r["r"], "got": got, "want": r["W"]})
+    for c in recs:
+        u = tuple(c["u"])
+        g_ref, m_ref = c["refs"]
+        frame = "NED" if g_ref[2] < 0 else "ENU"
+        wts = np.array(c["weights"], dtype=float)
+        acc = np.array(c["meas"][0], dtype=float) * (9.81 / c["N"])          # |g_ref| = 1
+        mag = np.array(c["meas"][1], dtype=float) * (48.0 / (c["N"] * np.linalg.norm(m_ref)))
+        R = OM.iteration_matrix(c)
+        truth = core.g_unit(u)
+        for route in ("estimate", "Q[1-D]", "Q[2 rows]", "estimate twice on one object"):
+            t.calls += 1
+            t.keys.add(("oleq-as-built", u, tuple(map(tuple, c["refs"])), tuple(c["weights"]), route))
+            np.random.seed(4711)
+            starts = [OM.draw_start(), OM.draw_start()]
+            np.random.seed(4711)
+            kw = dict(weights=wts.copy(), magnetic_ref=np.array(m_ref, dtype=float), frame=frame)
+            if route == "estimate":
+                o = core.outcome(lambda: [OLEQ(**kw).estimate(acc.copy(), mag.copy())])
+            elif route == "Q[1-D]":
+                o = core.outcome(lambda: [OLEQ(acc.copy(), mag.copy(), **kw).Q])
+            elif route == "Q[2 rows]":
+                o = core.outcome(lambda: list(OLEQ(np.array([acc, acc]), np.array([mag, mag]), **kw).Q))
+            else:
+                ob = OLEQ(**kw)
+                o = core.outcome(lambda: [ob.estimate(acc.copy(), mag.copy()), ob.estimate(acc.copy(), mag.copy())])
+            case = {"u": u, "refs": c["refs"], "weights": c["weights"], "route": route, "frame": frame}
+            if o[0] != "ok":
+                t.fail("C04|OLEQ[as-built]|%s|raises-%s" % (route, o[1]), dict(case, err=o[2]))
+                continue
+            for k, got in enumerate(o[1]):
+                got = np.asarray(got, dtype=float)
+                pred, n_it = OM.iterate(R, starts[k])
+                d = maxdiff(got, pred) if got.shape == (4,) else float("inf")
+                t.resid("oleq-as-built", d if np.isfinite(d) else 1.0)
+                if not d <= 1e-9:
+                    t.fail("C04|OLEQ[as-built]|%s|output-is-not-the-21-step-power-iteration" % route,
+                           dict(case, call=k, got=got, model=pred, multiplications=n_it, diff=d))
+                # the model itself: where its iteration has converged it has converged to the attitude (FixedPoint / Dominant)
+                if n_it < 21 and not min(maxdiff(pred, truth), maxdiff(pred, -truth)) <= 1e-6:
+                    t.fail("C04|harness-mirror|oleq-model-converged-elsewhere", dict(case, model=pred, truth=truth))
+    if recs:
+        t.samples.append({"oleq-as-built": {"u": recs[0]["u"], "refs": recs[0]["refs"], "weights": recs[0]["weights"]}})
+    return t
+
+
 def run(chk, only=None):
     quick = chk.tier == "quick"
     chk.rule = ("attitudes (canonical sign) of L(1) [quick] / L(2) [thorough] for the singularity-free class and the general-position "
@@ -105,6 +161,18 @@ def run(chk, only=None):
     with mp.get_context("fork").Pool(16) as pool:
         tallies = pool.map(replay_chunk, chunks)
     core.merge(chk, tallies)
+    # OLEQ against its as-built model
+    r1 = tlc.run_tlc("MC_Oleq", core.spec_cfg("MC_Oleq_laws"), timeout=1200)
+    chk.add_tlc("Oleq[W = L(r)^T R(b); symmetric involution; fixed point; unique direction]", r1)
+    if r1.violated:
+        chk.fail("C04|spec|Oleq|%s" % r1.violated, {"tlc": r1.output[-2000:]})
+    r2 = tlc.run_tlc("MC_Oleq", core.spec_cfg("MC_Oleq"), timeout=1200)
+    chk.add_tlc("Oleq[iteration matrices: attitudes x reference pairs x weights; Dominant]", r2)
+    if r2.violated:
+        chk.fail("C04|spec|Oleq|%s" % r2.violated, {"tlc": r2.output[-2000:]})
+    oc = r2.out_records
+    with mp.get_context("fork").Pool(16) as pool:
+        core.merge(chk, pool.map(oleq_cases, [(oc[i::16], r1.out_records if i == 0 else []) for i in range(16)]))
     traces = [tr for tl in tallies for tr in tl.traces][:4000]
     core.validate_traces(chk, "TraceSensorWorld", core.spec_cfg("TraceSensorWorld"), traces, "sensorworld",
                          lambda tr, i: "C04|%s|trace-rejected" % tr["route"])
